@@ -49,6 +49,13 @@ type Case struct {
 	Opts Opts        `json:"opts"`
 }
 
+func wrapIf(w bool, s string) string {
+	if w {
+		return `{"w":` + s + "}"
+	}
+	return s
+}
+
 // failingOut accepts room bytes, then fails.
 type failingOut struct{ room int }
 
@@ -199,7 +206,7 @@ func check(c *Case) (msg string, full bool, nontrivial bool) {
 		case json.Number:
 			return k + "=" + v.String()
 		default:
-			return k + "=" + refMarshal(v, c.Set.IfaceMarshal == "stdjson")
+			return k + "=" + wrapIf(c.Set.IfaceMarshal == "wrap" && v != nil, refMarshal(v, c.Set.IfaceMarshal != ""))
 		}
 	}
 	var candidates []string
